@@ -12,6 +12,7 @@ import sys
 import tempfile
 import time
 
+from vf.addenda import ADDENDA
 from vf.common import PYTHON, REPO, REPO_SRC, VERIF, DEPS, CpuTimeout, cpu_limit, jsonable, load_json
 
 REPLAY_CPU_BUDGET = 120  # CPU-seconds for replaying one recorded witness in the runner process (normally milliseconds)
@@ -254,7 +255,7 @@ def main(argv=None):
         "coverage": {
             "evaluations": int(evaluations),
             "distinct_nontrivial": len(nt),
-            "rule": mod.RULE + (f" (hash set capped per shard; {nt_overflow} further non-trivial cases not hashed)" if nt_overflow else ""),
+            "rule": mod.RULE + ADDENDA.get(prop, "") + (f" (hash set capped per shard; {nt_overflow} further non-trivial cases not hashed)" if nt_overflow else ""),
             "samples": samples or ["<none>"],
             "observed": {k: counters[k] for k in sorted(counters)},
             "violation_counts": dict(vcounts),
